@@ -31,13 +31,18 @@ CLAIMED["C04"] = dict(
 )
 CLAIMED["C05"] = dict(
     text="The documented action semantics is an executable Lean interpreter (applyStrict) with every precondition of the "
-    "property as an explicit check; proved for every script and tree: whenever it accepts, the shipped patcher (model "
-    "of patch.py, tied to the code by unit U2) performs the same change (C05_strict_refines_to_shipped). That the "
-    "differ's scripts are accepted is decided per run by replaying every real script under applyStrict and comparing "
-    "with the right document; the unbounded proof of that half (script generation invariant) is not done yet.",
-    note="Trusted: Lean kernel and standard axioms; models of Patcher and of the documented semantics validated by U2/U5 "
+    "property as an explicit check. Proved, for documents of any size, every good matching and option set: every script the "
+    "differ generates is accepted by it action by action - paths select exactly one node, UpdateAttrib / DeleteAttrib find "
+    "their attribute, InsertAttrib and the new name of RenameAttrib do not, insert and move positions lie between 0 and the "
+    "child count not counting the moved node, no node is moved into its own subtree, DeleteNode removes childless nodes only "
+    "- and the run ends with the differ's final working copy (C05_differ_script_accepted; Proofs/Strict.lean on top of the "
+    "script-generation invariant and the ancestor invariant). For every script and tree whatsoever: whenever the documented "
+    "semantics accepts, the shipped patcher performs the same change (C05_strict_refines_to_shipped). The models are tied to "
+    "the code by units U2 / U5; per run every real script is also replayed under applyStrict.",
+    note="Trusted: Lean kernel and standard axioms; models of Differ, Patcher and of the documented semantics validated by U2/U5 "
     "differential execution; the replay oracle runs the real scripts through the Lean strict interpreter.",
-    technique="Lean 4 refinement proof (strict semantics => shipped patcher) + correspondence + strict replay of real scripts",
+    technique="Lean 4 proof (strict acceptance of generated scripts from the script-generation and ancestor invariants; refinement "
+    "strict => shipped) + correspondence + strict replay of real scripts",
     design="DESIGN.md section 6, C05",
 )
 CLAIMED["C07"] = dict(
